@@ -29,7 +29,7 @@ from vlib import core, engine_corr, genfw
 from vlib.core import q, unq
 
 PROPERTY = "C09"
-LEAN_MODS = ["AtomicaProofs.Properties.C09", "AtomicaProofs.Properties.C13Closed"]
+LEAN_MODS = ["AtomicaProofs.Properties.C09", "AtomicaProofs.Properties.C13Closed", "AtomicaProofs.Properties.C03ClosedExt"]
 THEOREMS = [
     "Atomica.C09.run_causal",                       # L1: parameter streams equal at indices < n => stocks+flows equal at < n, stocks at n
     "Atomica.C09.end_extension",                    # L1: run on the prefix stream = prefix of the run
@@ -65,6 +65,10 @@ THEOREMS = [
     "Atomica.C13.closedprog_start_year_moved",
     "Atomica.C13.progNow_congr_before",
     "Atomica.C13.closedprog_prefix",
+    # closed loop, parameter scenarios on function parameters (skip windows): nothing used differs at the indices < m => the scenario run IS the baseline run on the first m entries, and the stocks of index m coincide
+    "Atomica.C03.closed_before_window_unchanged",
+    "Atomica.C03.closed_stock_at_window_start",
+    "Atomica.C03.closed_skip_uses_data",
 ]
 TRUSTED = [
     "function values and program outcomes (function parser, Covout.get_outcome, Program.get_prop_covered) are inputs of the model's parameter policy (modelled in C12/C11/C13)",
@@ -1222,6 +1226,10 @@ def run(ctx):
     # closed loop with programs: whole trajectories from the specification alone; on a disagreement the prefix oracle (re-run without programs) is evaluated
     from vlib import closedprog_corr
     closedprog_corr.run_closedprog(ctx, PROPERTY, ctx.n(25, 600))
+    # closed loop, parameter scenarios on function parameters: whole trajectories from the specification (scenario parset + skip windows); on a disagreement the
+    # prefix oracle (re-run without the scenario, everything before the first scenario year identical) and the skip-window value oracle are evaluated
+    from vlib import closed_corr
+    closed_corr.run_closed(ctx, PROPERTY, ctx.n(12, 300), force=("scenarios",))
     js = jobs(ctx)
     nproc = int(os.environ.get("VERIF_PROCS", "0") or 0) or (min(6, os.cpu_count() or 1) if ctx.quick else min(16, os.cpu_count() or 1))
     if nproc > 1:
@@ -1257,6 +1265,9 @@ def replay(ctx, data):
     if isinstance(c, dict) and c.get("closedprog"):
         from vlib import closedprog_corr
         return closedprog_corr.replay_case(c)
+    if isinstance(c, dict) and c.get("closed"):
+        from vlib import closed_corr
+        return closed_corr.replay_case(c)
     if rp.get("kind") == "modeA-scen":
         case = rp["case"]
         B = modeA_base()
